@@ -12,13 +12,13 @@ RULE = ("kernel calls, compared with the model's kernels (generated from src/por
         "xof_many n in 1..40; for Rust Platform::{portable,sse2,sse41,avx2,avx512} in the default (asm via ffi), pure (Rust intrinsics) "
         "and prefer_intrinsics (C intrinsics) builds, and for every C symbol flavour incl. the Windows-GNU assembly through ms_abi (also with garbage above every narrow argument, `CK dirty 1|2`, which the Microsoft convention allows); Rust hash_many is called with an exact and with a longer output slice; "
         "non-trivial = every call (distinct arguments); distinct = distinct op line")
-ASSUMPTIONS = ["hand-written assembly: the single-block routines (compress_in_place, compress_xof) of the unix and Windows-GNU SSE4.1, SSE2 and "
-               "AVX-512 files and of the three MSVC files are translated instruction by instruction and proved equal to Spec.compress under the "
-               "machine semantics B3/Asm/Sse.lean, Avx512Sem.lean, WinSem.lean (trusted; run against the CPU here); the many-input assembly "
-               "routines (hash_many, xof_many; the AVX2 files have only these) are not modelled at instruction level: a defect in them confined "
-               "to an argument class no generator produces would be missed",
+ASSUMPTIONS = ["hand-written assembly: the single-block routines (compress_in_place, compress_xof) of the unix, Windows-GNU and MSVC SSE4.1, SSE2 and "
+               "AVX-512 files and blake3_hash_many_sse41 of the unix file are translated instruction by instruction and proved equal to the "
+               "specification under the machine semantics B3/Asm/Sse.lean, Avx512Sem.lean, WinSem.lean, ManySem.lean (trusted; run against the CPU "
+               "here); the other many-input assembly routines (hash_many of SSE2 / AVX2 / AVX-512 and of the Windows files, xof_many) are not "
+               "modelled at instruction level: a defect in them confined to an argument class no generator produces would be missed",
                "the lane models of the intrinsics (Simd/Prim*.lean) and the machine semantics are trusted descriptions of the hardware, compared with the CPU on every run"]
-NOT_PROVED = ["that the hand-written assembly hash_many / xof_many routines implement the kernel contract "
+NOT_PROVED = ["that the remaining hand-written many-input assembly routines implement the kernel contract "
               "(correspondence only; their calling-convention clause is proved in C07A)"]
 M64 = (1 << 64) - 1
 RS_PLATS = PLATFORMS
